@@ -541,6 +541,15 @@ theorem match_url_string_spec (hs : List Str) (hord : ∀ h ∈ hs, special h = 
   · rintro ⟨a, ⟨h, hh', rfl⟩, ha⟩; exact ⟨h, hh', ha⟩
   · rintro ⟨h, hh', ha⟩; exact ⟨_, ⟨h, hh', rfl⟩, ha⟩
 
+/-- an authority that holds a character whose NFKC form contains one of `/ ? # @ :` (U+FF0F,
+U+FF1A, U+2100 …) is refused by `urlsplit` (`_checknetloc`): `match` raises `ValueError` — it does
+not answer for a host such as `ａ／b.com`.  (`NetlocChars` in the theorems above excludes exactly
+these characters.) -/
+theorem match_url_nfkc_rejected (t : T) (l : Lead) (nl rest : Str) (hl : l.Ok (nl ++ rest))
+    (hnl : NetlocSyntax nl) (hr : RestOk rest) (hx : nfkcRejects nl = true) :
+    matchUrl special puny t (l.str ++ nl ++ rest) = .error .valueError :=
+  (match_url_via_host special puny t _).2.1 _ (urlHost_lead_nfkc l nl rest hl hnl hr hx)
+
 /-- two URLs whose hosts differ in ASCII letter case only get the same answer -/
 theorem match_url_invariance (t : T)
     (l l' : Lead) (ui ui' : Option Str) (host host' : Str) (port port' : Option Str)
@@ -624,7 +633,9 @@ example :
       = .ok false ∧
     matchUrl (fun _ => false) punyDemo (addsHost (fun _ => false) punyDemo ["fr".toList]) "/fr".toList
       = .ok false ∧
-    matchUrl (fun _ => false) punyDemo new "http://[fr/".toList = .error .valueError := by
-  refine ⟨?_, ?_, ?_, ?_⟩ <;> decide +kernel
+    matchUrl (fun _ => false) punyDemo new "http://[fr/".toList = .error .valueError ∧
+    matchUrl (fun _ => false) punyDemo (addsHost (fun _ => false) punyDemo ["fr".toList])
+      "http://a／b.fr/".toList = .error .valueError := by
+  refine ⟨?_, ?_, ?_, ?_, ?_⟩ <;> decide +kernel
 
 end Ural.Props.C09
